@@ -210,6 +210,12 @@ impl<'a, T: Transport> Transferrer<'a, T> {
             return Ok(None);
         }
 
+        // Symlinks are handled per mode exactly as on creation; going through
+        // sync_file_with_delta would follow both the source and the destination link
+        if source.is_symlink {
+            return self.handle_symlink(source, dest_path).await;
+        }
+
         if !source.is_dir {
             // Use delta sync for updates
             let result = self
@@ -478,7 +484,10 @@ impl<'a, T: Transport> Transferrer<'a, T> {
             }
             SymlinkMode::Follow => {
                 // Follow the symlink and copy the target
-                if let Some(ref target) = source.symlink_target {
+                // (through the link path itself: the recorded target text may be
+                // relative to the link's directory, not to the working directory)
+                if source.symlink_target.is_some() {
+                    let target = &source.path;
                     // Check if target exists
                     if !target.exists() {
                         tracing::warn!(
